@@ -228,7 +228,10 @@ func (c *CtxObj) Invoke(ex *Exec, fr *frame, method string, args []Value) Value 
 	case "Value":
 		return Iface{}
 	case "Deadline":
-		ex.unsupported("ctx.Deadline on stub context (use vCtxDeadline)")
+		if c.deadline == nil || ex.clock == nil {
+			return Tuple{ex.zero(ex.eng.namedType("time", "Time", false)), ex.tt.Bool(false)}
+		}
+		return Tuple{ex.clockTime(c.deadline), ex.tt.Bool(true)}
 	case "Done":
 		ex.unsupported("ctx.Done on stub context")
 	}
@@ -271,7 +274,145 @@ func (t *TransportObj) Invoke(ex *Exec, fr *frame, method string, args []Value) 
 	return nil
 }
 
+// ---- *net.UDPConn (only for the transport harness of C13) ----
+//
+// One stub socket per path. Deadlines are instants of the logical clock. A read returns
+// according to the script the harness set with vScriptReply: the scripted datagram at
+// now+delay if that is before the read deadline, otherwise a timeout error at the read
+// deadline; with no read deadline a lost reply blocks for ever, which ends the path with
+// the harness's "c13-blocked-forever" assertion.
+type udpState struct {
+	readDL, writeDL *Term
+	kind            int // 0 lost, 1 reply
+	delay           *Term
+	payload         []*Term
+	writes          int
+}
+
+func (ex *Exec) timeToInstant(v Value) *Term {
+	st, ok := v.(Struct)
+	if !ok || len(st) < 2 {
+		return nil
+	}
+	wall, ext := st[0].(*Term), st[1].(*Term)
+	if wall.IsConst() && wall.cval>>63 == 1 {
+		return ext
+	}
+	if wall.IsConst() && wall.cval == 0 && ext.IsConst() && ext.cval == 0 {
+		return nil // zero time: no deadline
+	}
+	ex.unsupported("socket deadline that is not an instant of the logical clock")
+	return nil
+}
+
+func registerUDPStubs() {
+	setDL := func(which int) stubFn {
+		return func(ex *Exec, fr *frame, args []Value) Value {
+			if ex.udp == nil {
+				ex.udp = &udpState{}
+			}
+			d := ex.timeToInstant(args[1])
+			if which&1 != 0 {
+				ex.udp.readDL = d
+			}
+			if which&2 != 0 {
+				ex.udp.writeDL = d
+			}
+			return nilErr()
+		}
+	}
+	stubTable["(*net.conn).SetReadDeadline"] = setDL(1)
+	stubTable["(*net.conn).SetWriteDeadline"] = setDL(2)
+	stubTable["(*net.conn).SetDeadline"] = setDL(3)
+	stubTable["(*net.conn).Close"] = func(ex *Exec, fr *frame, args []Value) Value { return nilErr() }
+	stubTable["(*net.conn).RemoteAddr"] = func(ex *Exec, fr *frame, args []Value) Value { return Iface{} }
+	stubTable["(*net.conn).Write"] = func(ex *Exec, fr *frame, args []Value) Value {
+		if ex.udp == nil {
+			ex.udp = &udpState{}
+		}
+		ex.udp.writes++
+		n := len(args[1].(Slice).data)
+		// a write whose deadline has passed fails
+		if ex.udp.writeDL != nil && ex.clock != nil && ex.branch(ex.tt.Cmp(OSle, ex.udp.writeDL, ex.clock)) {
+			return Tuple{ex.tt.BV(64, 0), ex.mkError("write: i/o timeout", nil)}
+		}
+		return Tuple{ex.tt.BV(64, uint64(n)), nilErr()}
+	}
+	stubTable["(*net.UDPConn).ReadFromUDP"] = func(ex *Exec, fr *frame, args []Value) Value {
+		tt := ex.tt
+		if ex.udp == nil || ex.clock == nil {
+			ex.unsupported("UDP read outside the transport harness")
+		}
+		u := ex.udp
+		buf := args[1].(Slice)
+		timeout := func() Value {
+			ex.clock = u.readDL
+			return Tuple{tt.BV(64, 0), (*Value)(nil), ex.mkError("read: i/o timeout", nil)}
+		}
+		if u.readDL != nil && ex.branch(tt.Cmp(OSle, u.readDL, ex.clock)) {
+			return timeout()
+		}
+		if u.kind == 0 {
+			if u.readDL == nil {
+				// the read never returns: the watchdog armed by the harness decides
+				label := ex.watchdogLabel
+				if label == "" {
+					label = "read-blocks-for-ever"
+				}
+				if tape, ok := ex.model(nil); ok {
+					ex.violation("assert", label, "socket read without a deadline and no reply: blocks for ever", tape)
+				} else {
+					ex.out.nUnknown++
+				}
+				panic(&pathEnd{reason: "done", detail: "read blocked for ever"})
+			}
+			return timeout()
+		}
+		at := tt.Bin(OAdd, ex.clock, u.delay)
+		if u.readDL != nil && ex.branch(tt.Cmp(OSle, u.readDL, at)) {
+			return timeout()
+		}
+		ex.clock = at
+		n := len(u.payload)
+		if n > len(buf.data) {
+			n = len(buf.data)
+		}
+		for i := 0; i < n; i++ {
+			buf.data[i] = u.payload[i]
+		}
+		return Tuple{tt.BV(64, uint64(n)), (*Value)(nil), nilErr()}
+	}
+}
+
+// clockTime represents an instant of the logical clock as a time.Time carrying only a
+// monotonic reading (wall = hasMonotonic, ext = nanoseconds), so that Before/After/Sub/
+// Since/Until executed from their real SSA compare the logical instants.
+func (ex *Exec) clockTime(ns *Term) Value {
+	return Struct{ex.tt.BV(64, 1<<63), ns, (*Value)(nil)}
+}
+
 func registerEnvStubs() {
+	registerUDPStubs()
+	stubTable["time.Since"] = func(ex *Exec, fr *frame, args []Value) Value {
+		t := ex.timeToInstant(args[0])
+		if ex.clock == nil || t == nil {
+			ex.unsupported("time.Since outside logical-clock mode")
+		}
+		return ex.tt.Bin(OSub, ex.clock, t)
+	}
+	stubTable["time.Until"] = func(ex *Exec, fr *frame, args []Value) Value {
+		t := ex.timeToInstant(args[0])
+		if ex.clock == nil || t == nil {
+			ex.unsupported("time.Until outside logical-clock mode")
+		}
+		return ex.tt.Bin(OSub, t, ex.clock)
+	}
+	stubTable["time.Now"] = func(ex *Exec, fr *frame, args []Value) Value {
+		if ex.clock == nil {
+			ex.unsupported("time.Now outside logical-clock mode")
+		}
+		return ex.clockTime(ex.clock)
+	}
 	// internal/pkg/transport.New: succeeds for a literal IP address (no name resolution
 	// needed), fails for anything else
 	stubTable["github.com/gebn/bmc/internal/pkg/transport.New"] = func(ex *Exec, fr *frame, args []Value) Value {
@@ -308,6 +449,19 @@ func registerEnvStubs() {
 		} else {
 			c.deadline = pd
 		}
+		cancel := &StubFunc{name: "cancel", call: func(ex *Exec, args []Value) Value { c.cancelled = true; return nil }}
+		return Tuple{Iface{t: ex.ctxType(), v: c}, cancel}
+	}
+	stubTable["context.WithDeadline"] = func(ex *Exec, fr *frame, args []Value) Value {
+		ex.nCtx++
+		c := &CtxObj{parent: args[0], id: ex.nCtx}
+		d := ex.timeToInstant(args[1])
+		if pd := ex.ctxDeadline(args[0]); pd != nil && d != nil {
+			d = ex.tt.Ite(ex.tt.Cmp(OSlt, pd, d), pd, d)
+		} else if d == nil {
+			d = ex.ctxDeadline(args[0])
+		}
+		c.deadline = d
 		cancel := &StubFunc{name: "cancel", call: func(ex *Exec, args []Value) Value { c.cancelled = true; return nil }}
 		return Tuple{Iface{t: ex.ctxType(), v: c}, cancel}
 	}
